@@ -213,12 +213,17 @@ type memConnOpts struct {
 	limitEndpoint int64
 	maxMsg        uint32
 	opts          []client.Option
+<<<<<<< HEAD
 	// perMessageGoroutine: dispatch every received message in its own goroutine
 	// (config.ProcessReceivedMessage), so copies of one request are processed concurrently
 	perMessageGoroutine bool
 	// afterHandler, when set, runs on the receive path after the dispatch handler returned and before the
 	// library's own clean-up of the received message (through config.ProcessReceivedMessage)
 	afterHandler func(r *pool.Message)
+=======
+	// optional: Config.ProcessReceivedMessage (nil = the connection's default)
+	processReceived config.ProcessReceivedMessageFunc[*client.Conn]
+>>>>>>> wip-C11
 }
 
 func newMemConn(o memConnOpts) *memConn {
@@ -253,6 +258,9 @@ func newMemConn(o memConnOpts) *memConn {
 	cfg.LimitClientParallelRequests = o.limitTotal
 	cfg.LimitClientEndpointParallelRequests = o.limitEndpoint
 	cfg.MaxMessageSize = o.maxMsg
+	if o.processReceived != nil {
+		cfg.ProcessReceivedMessage = o.processReceived
+	}
 	cfg.Handler = func(w *responsewriter.ResponseWriter[*client.Conn], r *pool.Message) {
 		if string(r.Token()) == string(mc.barTok) {
 			mc.barrier <- struct{}{}
